@@ -200,6 +200,7 @@ func GenerateVC(g *Gen, fn *ssa.Function, ct *Contract) (vc *FnVC) {
 		vc.assume(Le(t, st.Get(g, "heapTop")))
 	}
 	fr.entry = st.Clone()
+	env.st = fr.entry
 	env.old = env
 	fr.env0 = env
 	// locals (ghost definitions at entry)
@@ -211,6 +212,13 @@ func GenerateVC(g *Gen, fn *ssa.Function, ct *Contract) (vc *FnVC) {
 			panic(&exprError{err.Error()})
 		}
 		env.vars[l.Var] = vc.define("loc_"+l.Var, t)
+	}
+	// package-level variables that provably keep their constant initial value
+	cg := g.constGlobals()
+	for _, n := range sortedKeys(cg) {
+		if s := g.sortOf(cg[n].Type()); s == SInt || s == SBool || s == SStr {
+			vc.assume(Eq(st.Get(g, "G:"+n), g.constTerm(cg[n])))
+		}
 	}
 	// package invariants and preconditions
 	for _, c := range vc.g.spec.pkgInvariants() {
@@ -571,118 +579,6 @@ func predIndex(b, p *ssa.BasicBlock) int {
 
 // ---- loops -------------------------------------------------------------------------------------
 
-func (fr *Frame) loopModified(li *loopInfo) map[string]bool {
-	mod := map[string]bool{}
-	for b := range li.body {
-		for _, in := range b.Instrs {
-			fr.instrModifies(in, mod)
-		}
-	}
-	return mod
-}
-
-func (fr *Frame) instrModifies(in ssa.Instruction, mod map[string]bool) {
-	g := fr.vc.g
-	switch x := in.(type) {
-	case *ssa.Store:
-		for _, c := range fr.addrComps(x.Addr) {
-			mod[c] = true
-		}
-	case *ssa.Alloc:
-		mod["heapTop"] = true
-		el := x.Type().(*types.Pointer).Elem()
-		if _, isArr := el.Underlying().(*types.Array); !isArr {
-			if _, isStruct := el.Underlying().(*types.Struct); !isStruct {
-				mod["Mem:"+string(g.sortOf(el))] = true
-			}
-		}
-	case *ssa.MakeSlice, *ssa.MakeMap, *ssa.MakeClosure:
-		mod["heapTop"] = true
-	case *ssa.Convert:
-		if g.sortOf(x.Type()) == SSlice {
-			mod["heapTop"] = true
-			mod["Arr:Int"] = true
-		}
-	case *ssa.MapUpdate:
-		mod["GoMaps"] = true
-	case *ssa.Call:
-		fr.callModifies(x.Common(), mod)
-	case *ssa.Defer:
-		// deferred effects happen at RunDefers
-	case *ssa.RunDefers:
-	}
-}
-
-func (fr *Frame) callModifies(c *ssa.CallCommon, mod map[string]bool) {
-	g := fr.vc.g
-	name := calleeName(c)
-	if b, ok := c.Value.(*ssa.Builtin); ok {
-		if b.Name() == "append" {
-			mod["heapTop"] = true
-			if sl, ok := c.Args[0].Type().Underlying().(*types.Slice); ok {
-				mod["Arr:"+string(g.sortOf(sl.Elem()))] = true
-			}
-		}
-		return
-	}
-	ct := g.spec.Contracts[name]
-	if ct == nil {
-		if fn := c.StaticCallee(); fn != nil && fn.Pkg == g.pkg && fn.Blocks != nil {
-			// inlined: collect from the body
-			if fr.vc.inlineDepth < 4 {
-				fr.vc.inlineDepth++
-				for _, b := range fn.Blocks {
-					for _, in := range b.Instrs {
-						fr.instrModifies(in, mod)
-					}
-				}
-				fr.vc.inlineDepth--
-			}
-			return
-		}
-		// unknown external: pointer arguments may be written
-		for _, a := range c.Args {
-			if pt, ok := a.Type().Underlying().(*types.Pointer); ok {
-				if _, isAlloc := a.(*ssa.Alloc); isAlloc {
-					for _, cm := range fr.cellComps(pt.Elem()) {
-						mod[cm] = true
-					}
-				}
-			}
-		}
-		return
-	}
-	for _, a := range ct.Assigns {
-		mod[compOfAssign(g, a)] = true
-	}
-	for _, s := range ct.Sets {
-		mod[compOfAssign(g, s.Var)] = true
-	}
-	if len(ct.HavocCells) > 0 {
-		for _, hc := range ct.HavocCells {
-			for i, p := range ct.Params {
-				if p == hc {
-					args := c.Args
-					if c.IsInvoke() {
-						// receiver is not in Args for invoke
-						if i == 0 {
-							continue
-						}
-						i--
-					}
-					if i < len(args) {
-						if pt, ok := args[i].Type().Underlying().(*types.Pointer); ok {
-							for _, cm := range fr.cellComps(pt.Elem()) {
-								mod[cm] = true
-							}
-						}
-					}
-				}
-			}
-		}
-	}
-}
-
 func compOfAssign(g *Gen, a string) string {
 	a = strings.TrimSpace(a)
 	if strings.Contains(a, ":") || a == "heapTop" || a == "GoMaps" {
@@ -782,8 +678,9 @@ func (fr *Frame) enterLoop(b *ssa.BasicBlock, li *loopInfo, st *State, reach *Te
 	}
 	// 2. havoc
 	st2 := st.Clone()
-	mod := fr.loopModified(li)
-	for _, k := range sortedKeys(mod) {
+	ms := fr.loopMods(li)
+	topAtEntry := st.Get(g, "heapTop")
+	for _, k := range sortedKeys(ms.full) {
 		old := st.Get(g, k)
 		nv := vc.fresh(compSym(k)+"_h", g.compSort(k))
 		nv.Ty = old.Ty
@@ -791,6 +688,17 @@ func (fr *Frame) enterLoop(b *ssa.BasicBlock, li *loopInfo, st *State, reach *Te
 		if k == "heapTop" {
 			vc.assume(Le(old, nv))
 		}
+	}
+	for _, k := range sortedKeys(ms.fresh) {
+		if ms.full[k] {
+			continue
+		}
+		// only cells allocated inside the loop change: everything that existed at loop entry keeps its value
+		old := st.Get(g, k)
+		nv := vc.fresh(compSym(k)+"_h", g.compSort(k))
+		st2.Set(k, nv)
+		r := Const("?r", SInt)
+		vc.assume(Forall([]*Term{r}, Implies(Le(r, topAtEntry), Eq(Select(nv, r), Select(old, r))), Select(nv, r)))
 	}
 	phiH := map[*ssa.Phi]*Term{}
 	for _, in := range b.Instrs {
@@ -965,6 +873,10 @@ func (fr *Frame) resolveLocal(name string, h *ssa.BasicBlock, phis map[*ssa.Phi]
 		if phi.Comment == name {
 			return t, true
 		}
+		if name == "_idx" && phi.Comment == "rangeindex" {
+			// number of completed iterations of a range loop = index of the element about to be visited
+			return Add(t, IntLit(1)), true
+		}
 	}
 	// 2. values named by debug info
 	var cands []ssa.Value
@@ -1130,4 +1042,103 @@ func (vc *FnVC) emitPost(fr *Frame, guard *Term, results []*Term, st *State) {
 		}
 		vc.oblige("post:"+label, "post", c.Props, c.Line, guard, t, c.Expr)
 	}
+	vc.emitFrame(fr, guard, st)
+	// "sets G := e" of an own contract is also a postcondition: final G equals e over the entry state
+	for _, c := range vc.ct.Sets {
+		e2 := *env
+		e2.st = fr.entry
+		e2.where = c.Line
+		t, err := e2.Parse(c.Expr)
+		if err != nil {
+			panic(&exprError{err.Error()})
+		}
+		comp := compOfAssign(vc.g, c.Var)
+		if strings.HasPrefix(comp, "g:") {
+			continue // ghost bookkeeping is defined by the contract; there is no code to compare it with
+		}
+		vc.oblige("post:sets:"+c.Var, "post", c.Props, c.Line, guard, Eq(st.Get(vc.g, comp), t), c.Var+" := "+c.Expr)
+	}
+}
+
+// emitFrame: with a declared frame (assigns/allocs), every other component the body touched must be unchanged
+// (scalars) or changed at freshly allocated references only (heap arrays).
+func (vc *FnVC) emitFrame(fr *Frame, guard *Term, fin *State) {
+	if !vc.ct.HasAssigns {
+		return
+	}
+	g := vc.g
+	full := map[string]bool{}
+	for _, a := range vc.ct.Assigns {
+		full[compOfAssign(g, a)] = true
+	}
+	for _, s := range vc.ct.Sets {
+		full[compOfAssign(g, s.Var)] = true
+	}
+	top0 := fr.entry.Get(g, "heapTop")
+	for _, k := range fin.Comps() {
+		if full[k] || k == "heapTop" || k == "GoMaps" {
+			continue
+		}
+		a, b := fr.entry.Get(g, k), fin.Get(g, k)
+		if a.String() == b.String() {
+			continue
+		}
+		if isHeapArray(k) {
+			r := vc.fresh("frame_r", SInt)
+			vc.obligeNoAssume("frame:"+k, "frame", nil, vc.ct.Source, guard, Implies(And(mk(">=", SBool, r, IntLit(0)), Le(r, top0)), Eq(Select(b, r), Select(a, r))), "only freshly allocated cells of "+k+" may change")
+		} else {
+			vc.obligeNoAssume("frame:"+k, "frame", nil, vc.ct.Source, guard, Eq(b, a), k+" is not in the assigns clause and must be unchanged")
+		}
+	}
+}
+
+func (vc *FnVC) obligeNoAssume(name, kind string, props []string, pos string, guard, goal *Term, clause string) {
+	n := len(vc.log)
+	vc.oblige(name, kind, props, pos, guard, goal, clause)
+	vc.log = vc.log[:n]
+}
+
+// resolveAt maps a source-level local variable name to its value at instruction `at`: the latest debug
+// reference to that name that precedes the instruction and whose value is available there.
+func (fr *Frame) resolveAt(name string, at ssa.Instruction, st *State) (*Term, bool) {
+	var best ssa.Value
+	var bestPos token.Pos
+	for _, b := range fr.fn.Blocks {
+		for _, in := range b.Instrs {
+			d, ok := in.(*ssa.DebugRef)
+			if !ok || d.IsAddr {
+				continue
+			}
+			id, ok := d.Expr.(*ast.Ident)
+			if !ok || id.Name != name {
+				continue
+			}
+			if _, have := fr.vals[d.X]; !have {
+				if _, isConst := d.X.(*ssa.Const); !isConst {
+					continue
+				}
+			}
+			if vi, ok := d.X.(ssa.Instruction); ok && vi.Block() != nil && at.Block() != nil && !vi.Block().Dominates(at.Block()) {
+				continue
+			}
+			if p := id.Pos(); p <= at.Pos() && p >= bestPos {
+				best, bestPos = d.X, p
+			}
+		}
+	}
+	if best != nil {
+		return fr.val(best), true
+	}
+	for _, b := range fr.fn.Blocks {
+		for _, in := range b.Instrs {
+			if a, ok := in.(*ssa.Alloc); ok && a.Comment == name {
+				if ref, ok := fr.vals[a]; ok {
+					el := a.Type().(*types.Pointer).Elem()
+					t := Select(st.Get(fr.vc.g, "Mem:"+string(fr.vc.g.sortOf(el))), ref)
+					return fr.vc.g.withType(t, el), true
+				}
+			}
+		}
+	}
+	return nil, false
 }
